@@ -29,6 +29,7 @@ META = dict(
 )
 LEAN_PROPS = ["TsdateVerif.Props.C20"]
 LEAN_BUILD = ["TsdateVerif.Model.EPRun"]
+TRANSLATORS = ["kernels"]     # Gen/Kernels.lean is regenerated from the source; Props re-prove `*_generated`
 ASSUMPTIONS = [
     "star input: no singleton blocks, every edge joins a non-fixed parent to a sample at time 0 (StarNet; evaluated per input)",
     "regularise_roots=False, rescaling_intervals=0 (the property's own hypothesis)",
